@@ -5,9 +5,10 @@
    on the wrong type, wrong arity), and running out of recursion fuel is [OutOfFuel]; termination of the model
    itself is Coq's.  Proved below: evaluation of every well-typed query on every well-formed value within the
    depth limit returns a nodelist (no error of any kind), and compile() of ANY text of scalar values never ends in an
-   exception that is not a JSONPathError (C13_compile_no_other_exception).  NOT proved (decided by the correspondence
-   on garbage / near-miss / deeply nested inputs, with every exception classified): that the fuel the model gives the
-   lexer and parser loops always suffices (= termination of the Python loops), and
+   exception that is not a JSONPathError (C13_compile_no_other_exception), and the lexer's state machine terminates on
+   every text (C13_tokenize_terminates).  NOT proved (decided by the correspondence on garbage / near-miss / deeply
+   nested inputs, with every exception classified): that the fuel the model gives the PARSER's recursion always
+   suffices (= termination of the parser's loops), and
      C13_find_total : forall cfg q v, compiled q -> (exists ns, m_find cfg q v = Ok ns) \/ m_find cfg q v = Err ERecursion None *)
 From JP Require Import Base.Json Model.Ast Model.Eval Spec.Sem Spec.Types Proofs.FilterProofs.
 
@@ -33,6 +34,14 @@ From JP Require Import Model.Api Proofs.StringProofs Proofs.CompileNoCrash.
 Theorem C13_compile_no_other_exception : forall cfg text, forallb is_scalar text = true -> forall x, m_compile cfg text <> Crash x.
 Proof. exact compile_no_crash. Qed.
 Print Assumptions C13_compile_no_other_exception.
+
+(* the lexer's run loop (while state is not None: state = state(lexer)) stops on every text: the model's fuel
+   (4 * len + 16 transitions) is never exhausted, because 4 * (characters left) + a rank of the state < 4 decreases at
+   every transition (Proofs/LexTerm.v; every pattern the lexer matches with consumes at least one character) *)
+From JP Require Import Proofs.LexTerm.
+Theorem C13_tokenize_terminates : forall text, m_tokenize text <> OutOfFuel.
+Proof. exact tokenize_terminates. Qed.
+Print Assumptions C13_tokenize_terminates.
 
 (* the error string: position() is defined for every offset, including the synthetic index -1 *)
 From JP Require Import Model.Position.
